@@ -9,3 +9,75 @@ impl super::CacheHandler {
         }
     }
 }
+
+// Native replay of mirsym counterexamples against the REAL cache code (driven by /verif/lib/mir_replay.py).
+// Script (VERIF_REPLAY_FILE): "ttls <an,..;ns,..;ad,..>", "elapsed <secs> <nanos>", "same <0|1>".
+#[cfg(test)]
+mod replay {
+    use super::super::*;
+    use crate::dns::dnspkt::*;
+
+    fn rr(ttl: u32) -> RR {
+        RR { domain: "example.com".parse().unwrap(), class: CLASS_IN, rrtype: RR_A, ttl, rdata: RData::Other(vec![1, 2, 3, 4]) }
+    }
+
+    #[test]
+    fn isomer_erbium_replay_cache() {
+        let path = match std::env::var("VERIF_REPLAY_FILE") {
+            Ok(p) => p,
+            Err(_) => return,
+        };
+        let script = std::fs::read_to_string(path).expect("replay script");
+        let mut secs: Vec<Vec<u32>> = vec![vec![], vec![], vec![]];
+        let (mut es, mut en) = (0u64, 0u32);
+        let mut same = true;
+        for line in script.lines() {
+            let w: Vec<&str> = line.split_whitespace().collect();
+            if w.is_empty() {
+                continue;
+            }
+            match w[0] {
+                "ttls" => {
+                    for (i, part) in w.get(1).unwrap_or(&";;").split(';').enumerate() {
+                        secs[i] = part.split(',').filter(|x| !x.is_empty()).map(|x| x.parse().unwrap()).collect();
+                    }
+                }
+                "elapsed" => {
+                    es = w[1].parse().unwrap();
+                    en = w[2].parse().unwrap();
+                }
+                "same" => same = w[1] == "1",
+                _ => {}
+            }
+        }
+        let pkt = DNSPkt {
+            qid: 7, rd: true, tc: false, aa: false, qr: true, opcode: OPCODE_QUERY, cd: false, ad: false, ra: true,
+            rcode: NOERROR, bufsize: 512, edns_ver: None, edns_do: false,
+            question: Question { qdomain: "example.com".parse().unwrap(), qclass: CLASS_IN, qtype: RR_A },
+            answer: secs[0].iter().map(|t| rr(*t)).collect(),
+            nameserver: secs[1].iter().map(|t| rr(*t)).collect(),
+            additional: secs[2].iter().map(|t| rr(*t)).collect(),
+            edns: None,
+        };
+        let handler = CacheHandler { next: outquery::OutQuery::new(), cache: Arc::new(RwLock::new(Cache::new())) };
+        let reply: Result<DNSPkt, Error> = Ok(pkt);
+        let lifetime = handler.calculate_expiry(&reply);
+        println!("REPLAY lifetime {} {}", lifetime.as_secs(), lifetime.subsec_nanos());
+        let key = CacheKey { qname: "example.com".parse().unwrap(), qtype: RR_A, edns_do: false, cd: false };
+        let lookup = CacheKey { qname: "example.com".parse().unwrap(), qtype: RR_A, edns_do: false, cd: !same };
+        let birth = Instant::now();
+        let mut cache = Cache::new();
+        cache.insert(key, CacheValue { reply, birth, lifetime });
+        let now = birth + Duration::new(es, en);
+        let r = std::panic::catch_unwind(std::panic::AssertUnwindSafe(|| CacheHandler::get_entry(&cache, &lookup, now)));
+        match r {
+            Err(_) => println!("REPLAY result panic"),
+            Ok(None) => println!("REPLAY result miss"),
+            Ok(Some(Err(_))) => println!("REPLAY result hit-err"),
+            Ok(Some(Ok(p))) => {
+                let f = |v: &Vec<RR>| v.iter().map(|r| r.ttl.to_string()).collect::<Vec<_>>().join(",");
+                println!("REPLAY result hit {};{};{}", f(&p.answer), f(&p.nameserver), f(&p.additional));
+            }
+        }
+    }
+}
